@@ -74,12 +74,17 @@ const (
 //	drop        reset (RST) without reading: a new connection right after accept, a kept connection as soon as the
 //	            first byte of the next request arrives
 //	partial     read the request, send a truncated header block ("HTTP/1.1 200 OK\r\nContent-Le"), close
+//	200t, 404t, 503t  complete status line and headers with Content-Length: 10, 2 bytes of body, then an orderly close
+//	            (the answer arrived, its body is cut short)
+//	200k        complete headers with Transfer-Encoding: chunked, one 2-byte chunk, no terminating chunk, orderly close
 func wireBehaviourClass(b string) string {
 	switch b {
-	case "200", "200b", "200c":
-		return "success"
-	case "404": // e3
+	case "200", "200b", "200c", "200t", "200k":
+		return "success" // the class is that of the status code that arrived
+	case "404", "404t": // 404: e3
 		return "permanent"
+	case "503t":
+		return "retryable"
 	case "503", "503b", "503c", "rdclose", "drop", "partial":
 		return "retryable" // 5xx, or no answer at all: a network error
 	}
@@ -371,6 +376,14 @@ func (s *wireTarget) handle(c net.Conn, conn int) {
 		case "rdclose":
 		case "partial":
 			out = "HTTP/1.1 200 OK\r\nContent-Le"
+		case "200t":
+			out = "HTTP/1.1 200 OK\r\nContent-Type: text/plain\r\nContent-Length: 10\r\n\r\nok"
+		case "404t":
+			out = "HTTP/1.1 404 Not Found\r\nContent-Type: text/plain\r\nContent-Length: 10\r\n\r\nno"
+		case "503t":
+			out = "HTTP/1.1 503 Service Unavailable\r\nContent-Type: text/plain\r\nContent-Length: 10\r\n\r\nno"
+		case "200k":
+			out = "HTTP/1.1 200 OK\r\nContent-Type: text/plain\r\nTransfer-Encoding: chunked\r\n\r\n2\r\nok\r\n"
 		default:
 			panic("c06 wire: unknown behaviour " + b)
 		}
@@ -1340,7 +1353,7 @@ func (c *checker) partWire() {
 	}
 	deadline := time.Now().Add(budget)
 
-	e1Alpha := []string{"200", "200b", "200c", "503", "503b", "503c", "rdclose", "drop", "partial"}
+	e1Alpha := []string{"200", "200b", "200c", "503", "503b", "503c", "rdclose", "drop", "partial", "200t", "200k", "404t", "503t"}
 	e1Max := []int{1, 2}
 	payloads := []bool{false}
 	e2Alpha := []string{"allow/200", "allow/503", "allow/rdclose", "deny", "err-temp", "err-nx", "err-timeout", "err-deadline", "empty", "nil-ip"}
@@ -1354,7 +1367,7 @@ func (c *checker) partWire() {
 	}
 	var cases []WireCase
 	for _, max := range e1Max {
-		scripts := wireScripts(e1Alpha, func(s string) bool { return wireBehaviourClass(s) == "success" }, max)
+		scripts := wireScripts(e1Alpha, func(s string) bool { return wireBehaviourClass(s) != "retryable" }, max)
 		for _, empty := range payloads {
 			for _, warm := range []bool{false, true} {
 				for _, sc := range scripts {
